@@ -865,6 +865,9 @@ func (g *vgen) val(ts *TSpec, opt string, depth int) Val {
 		}
 		return Val{L: l}
 	}
+	if u.Kind == KUnsup {
+		return Val{}
+	}
 	panic("GenVal: kind " + string(u.Kind))
 }
 
